@@ -258,7 +258,7 @@ Example c19_r6_nonvacuous :
   let body := fun d => match d with DVal id true => Ok [id] | _ => Err end in
   let ra := render_auto lower (Ok ([1], false)) (Ok ([2], false)) (Ok ([3], false)) (Ok ([4], false)) body in
   let csv' := [99;197;191;118] in
-  let cd := mkCD [[]; [45;204;182]; []] in
+  let cd := mkCD [false] [[]; [45;204;182]; []] in
   let reg := register csv' (abstract 77 cd) [([110;111;110;101], DVal 2 true)] in
   plain_name lower csv'
   /\ cd_is_empty cd = false /\ rune_count [45;204;182] = 2%nat
